@@ -75,7 +75,7 @@ func main() {
 	} else if *tier == "thorough" {
 		cfg.TimeoutMs = 300_000
 	} else {
-		cfg.TimeoutMs = 60_000
+		cfg.TimeoutMs = 20_000
 	}
 	switch *solverName {
 	case "z3-new":
